@@ -225,6 +225,39 @@ func c03Run(e *core.Env) {
 		})
 		e.SetBound("journal_depth_"+pl.tag, pl.n)
 	}
+	// position life histories (closed and reopened positions, several positions)
+	chainN := core.Pick(e, 4, 6)
+	var chainCfgs []ref.BalCfg
+	for _, v := range []string{"CHF", "USD"} {
+		for _, iv := range []ref.Interval{ref.Daily, ref.Once} {
+			for _, nc := range []bool{false, true} {
+				chainCfgs = append(chainCfgs, ref.BalCfg{Valuation: v, Interval: iv, NoClose: nc})
+			}
+		}
+	}
+	e.Note("position chains: 7 step kinds, <= %d steps on consecutive days, %d flag sets", chainN, len(chainCfgs))
+	positionChains(e, chainN, func(seq []jr.Dir) {
+		for _, cfg := range chainCfgs {
+			if !e.Take() {
+				continue
+			}
+			key, detail, out, checked := c03One(drv, seq, cfg)
+			e.Count("evaluations")
+			e.Add("cells_compared", checked)
+			if checked > 0 {
+				e.Count("distinct_nontrivial")
+			}
+			e.Distinct(out.Stdout)
+			if key != "" {
+				cs := balCase{cloneDirs(seq), cfg}
+				e.Violation(key, detail, cs, func() bool {
+					k, _, _, _ := c03One(drv, cs.Body, cs.Cfg)
+					return k == key
+				})
+			}
+		}
+	})
+	e.SetBound("position_chain_steps", chainN)
 }
 
 func c03Replay(e *core.Env, data json.RawMessage) (bool, string) {
